@@ -1,0 +1,9 @@
+//go:build verif
+
+package client
+
+// VerifGate is called at the linearization points of the request/response hand-off in execFunc when the
+// package is built with the `verif` tag; a conformance harness may block in it to schedule the hand-off.
+var VerifGate = func(string, *Request) {}
+
+func verifGate(point string, req *Request) { VerifGate(point, req) }
